@@ -176,7 +176,7 @@ def run(ctx: Any) -> None:
                 "C38_session_cancel_at_most_once", "C38_session_silent_after_cancel", "C38_session_each_operation",
             ],
             "T_Retry": ["compute_delay_tie", "guard_conn_tie", "guard_disconnect_tie", "guard_status_tie", "loop_fuel_tie", "default_config_tie",
-                        "exchange_sites_tie", "cancel_sites_tie", "continuation_sites_tie", "unary_sites_tie",
+                        "exchange_sites_tie", "cancel_sites_tie", "cancel_release_order_tie", "continuation_sites_tie", "unary_sites_tie",
                         "C38_source_delay_in_0_backoff_max", "C38_source_default_config", "C38_source_range_and_guards"],
         },
     )
